@@ -104,11 +104,23 @@ impl DefaultTo<'_> {
     #[verifier::external_body]
     pub fn get_key(self) -> (r: Key) ensures r == key_of(self) { unimplemented!() }
 }
+/// ghost names for "the locale being merged" and "the fallback chosen for it" of the current call: they let the
+/// contract say that a whole subkey group is handed the SAME locale and the SAME fallback (C03: the rule is applied
+/// uniformly, including whole subkey groups)
+pub uninterp spec fn the_top_locale() -> Key;
+pub uninterp spec fn the_fallback_key() -> Key;
+pub uninterp spec fn the_fallback_is_explicit() -> bool;
+pub open spec fn same_fallback(top_locale: Key, default_to: DefaultTo) -> bool {
+    top_locale == the_top_locale() && key_of(default_to) == the_fallback_key() && (default_to is Explicit) == the_fallback_is_explicit()
+}
 impl Locale {
-    // the recursion into a subkey group: Locale::merge is not verified (BTreeMap entry API)
+    // the recursion into a subkey group: Locale::merge is not verified (BTreeMap entry API); it calls
+    // ParsedValue::merge for every key of the group with the locale and fallback it was given
     #[verifier::external_body]
     pub fn merge(&mut self, keys: &mut BuildersKeysInner, top_locale: Key, default_to: DefaultTo, key_path: &mut KeyPath,
-                 strings: &mut StringIndexer, warnings: &Warnings) -> Result<()> { unimplemented!() }
+                 strings: &mut StringIndexer, warnings: &Warnings) -> Result<()>
+        requires same_fallback(top_locale, default_to),
+    { unimplemented!() }
 }
 // A4: `default_locale.keys.keys().cloned().map(|k| (k, ParsedValue::Default)).collect()` -- the same keys,
 // each mapped to ParsedValue::Default (iterator adapter chain, no verifier semantics)
